@@ -163,6 +163,8 @@ type genOpts struct {
 	dryPct    int
 	fine      bool // large node sizes (in units), so that utilisation takes fine-grained values
 	iso       bool
+	enum      int
+	enum2     bool
 }
 
 // weights of the event kinds per profile (per cent-ish; normalised when drawn)
@@ -408,7 +410,9 @@ func genFaults(r *rand.Rand, st *world.State, g string) []world.Fault {
 		if len(ids) > 0 {
 			n = ids[r.Intn(len(ids))]
 		}
-		switch r.Intn(9) {
+		switch r.Intn(10) {
+		case 9:
+			fs = append(fs, world.Fault{Op: "describe_instance", T: n})
 		case 0:
 			fs = append(fs, world.Fault{Op: "list_pods", T: g})
 		case 1:
@@ -442,6 +446,8 @@ func cmdDrive(fs *flag.FlagSet, args []string) {
 	twinAll := fs.Bool("twin", false, "twin-scan a clone with a fresh controller at every scan")
 	dryPct := fs.Int("dry", 12, "percent of groups in dry mode")
 	fine := fs.Bool("fine", false, "large node sizes: fine-grained utilisation values")
+	enum := fs.Int("enum", 0, "percent of scans at which every call of the scan is failed in turn on clones of the world (fault enumeration by call index)")
+	enum2 := fs.Bool("enum2", false, "with -enum: also every pair of calls")
 	iso := fs.Bool("iso", false, "isolation twin: re-run every history without the events of one group and record both call sequences (C12)")
 	trace := fs.String("trace", "trace.ndjson", "output: scan lines for TLC")
 	events := fs.String("events", "", "output: all events (for replay)")
@@ -454,7 +460,7 @@ func cmdDrive(fs *flag.FlagSet, args []string) {
 		ev = newOut(*events)
 		defer ev.close()
 	}
-	o := genOpts{maxNodes: *maxNodes, maxGroups: *maxGroups, steps: *steps, faultPct: *faultPct, fleet: *fleet, lag: *lag, odd: *odd, profile: *profile, twinAll: *twinAll, dryPct: *dryPct, fine: *fine, iso: *iso}
+	o := genOpts{maxNodes: *maxNodes, maxGroups: *maxGroups, steps: *steps, faultPct: *faultPct, fleet: *fleet, lag: *lag, odd: *odd, profile: *profile, twinAll: *twinAll, dryPct: *dryPct, fine: *fine, iso: *iso, enum: *enum, enum2: *enum2}
 	var wg sync.WaitGroup
 	sem := make(chan struct{}, *par)
 	var mu sync.Mutex
@@ -501,6 +507,9 @@ func driveOne(src string, seed int64, o genOpts, tr, ev *out) int {
 			var twin *world.TwinObs
 			if e.Twin {
 				twin = twinScan(w, seed)
+			}
+			if o.enum > 0 && r.Intn(100) < o.enum {
+				lines = append(lines, enumFaults(w, seed, fmt.Sprintf("%s#enum%d", src, len(evs)-1), o.enum2)...)
 			}
 			line := w.Scan(e.Faults)
 			line.Src, line.ID, line.Twin = src, len(evs)-1, twin
@@ -666,4 +675,75 @@ func isoTwin(src string, seed int64, init *world.State, evs []interface{}, lines
 		}
 		apply(tw, &e)
 	}
+}
+
+// faultOf names the fault that makes call c fail.
+func faultOf(c world.Call, k map[string]int) (world.Fault, bool) {
+	switch c.Op {
+	case "get", "update", "delete":
+		return world.Fault{Op: c.Op, T: c.N}, true
+	case "terminate", "describe_instance":
+		return world.Fault{Op: c.Op, T: c.N}, true
+	case "list_pods", "list_nodes", "set_desired":
+		return world.Fault{Op: c.Op, T: c.G}, true
+	}
+	return world.Fault{}, false
+}
+
+// enumFaults runs the scan fault-free on a clone of the world to learn its calls, then once per call (and per pair of calls)
+// with that call failing, each time on a fresh clone. The lines are ordinary scan lines (pre-state = the clone's).
+func enumFaults(w *world.World, seed int64, src string, pairs bool) []interface{} {
+	var out []interface{}
+	st := w.Project()
+	clone := func() *world.World {
+		c, err := world.Build(seed+7, st.Clone())
+		if err != nil {
+			return nil
+		}
+		for g := range st.Groups {
+			c.Order[g] = append([]string{}, w.Order[g]...)
+		}
+		return c
+	}
+	c0 := clone()
+	if c0 == nil {
+		return nil
+	}
+	base := c0.Scan(nil)
+	var fl []world.Fault
+	seen := map[world.Fault]bool{}
+	calls := append([]world.Call{}, base.Calls...)
+	for g, ns := range base.Lookups {
+		for _, n := range ns {
+			calls = append(calls, world.Call{Op: "describe_instance", G: g, N: n})
+		}
+	}
+	for _, c := range calls {
+		if f, ok := faultOf(c, nil); ok && !seen[f] {
+			seen[f] = true
+			fl = append(fl, f)
+		}
+	}
+	run := func(fs []world.Fault, tag string) {
+		c := clone()
+		if c == nil {
+			return
+		}
+		l := c.Scan(fs)
+		l.Src, l.ID = src+tag, 0
+		out = append(out, l)
+		// after a transient failure the next scan proceeds normally
+		l2 := c.Scan(nil)
+		l2.Src, l2.ID = src+tag+"+next", 1
+		out = append(out, l2)
+	}
+	for i, f := range fl {
+		run([]world.Fault{f}, fmt.Sprintf(":%d", i))
+		if pairs {
+			for j := i + 1; j < len(fl); j++ {
+				run([]world.Fault{f, fl[j]}, fmt.Sprintf(":%d,%d", i, j))
+			}
+		}
+	}
+	return out
 }
